@@ -198,7 +198,7 @@ def random_refusal(name):
     choices = [('missing-parent', 'add_fp', dict(iso_path='/NOSUCHDIR/NEW.;1', **extra('new-in-missing')), True),
                ('rm-missing-file', 'rm_file', dict(iso_path='/NOSUCH.;1'), False),
                ('rm-missing-directory', 'rm_directory', dict(iso_path='/NOSUCHD'), False),
-               ('illegal-character', 'add_fp', dict(iso_path='/bad name.;1', **extra('bad-name')), True),
+               ] + ([] if kw.get('interchange_level') == 4 else [('illegal-character', 'add_fp', dict(iso_path='/bad name.;1', **extra('bad-name')), True)]) + [
                ('version-out-of-range', 'add_fp', dict(iso_path='/V.;40000', **extra('version')), True)]
     if files:
         f = rnd.choice(files)
